@@ -47,6 +47,17 @@ Definition reader_ok (i o : V) : bool :=
   let final := match rev reads with r :: _ => vs (vnth 1 r) | [] => [] end in
   let clean := name_is final "EOF" in
   if vz (vnth 4 i) =? 2 then true (* pass-through is covered by the dispatch suite *) else
+  (* C16, re-framing path: when a Read returns, what has been taken from the client's body beyond
+     what was handed on is at most one envelope prefix - the reader never waits for the next message
+     (a client without envelopes is different: its whole body is the message and may be measured first) *)
+  (negb (vz (vnth 4 i) =? 0) || match cenv cx with None => true | Some _ => false end ||
+   (fix go (rs : list V) (delivered : Z) : bool :=
+      match rs with
+      | [] => true
+      | r :: rest =>
+          let delivered' := delivered + zlen (vs (vnth 0 r)) in
+          (vz (vnth 2 r) - delivered' <=? 5 + 5) && go rest delivered'
+      end) reads 0) &&
   match senv cx with
   | Some _ =>
       let '(frames, lft) := parse_frames (S (length data)) data in
